@@ -5,7 +5,7 @@ from ..astutil import aug_form, dotted, effective, method_call
 from ..cfg import cfg_of, fact_key, norm, walk_own
 from ..consteval import fold_in
 from ..mutate import B, M
-from .c03 import ext_fetcher_rules, toc_lookup_rules
+from .c03 import ext_fetcher_rules, param_type_table_rules, toc_lookup_rules
 from ..symexec import paths_of, paths_of_block
 
 PROP = 'C04'
@@ -21,9 +21,9 @@ EXPLANATION = (
     'stripped only from current-protocol READ replies and values are delivered only for solicited replies or value-changed notifications; '
     'R6 every one-shot reply closure tests channel, command and the 16-bit variable id of its own request before consuming the reply, and '
     'the request carries the same command and id; R7 decode: id at id_index, value after it, one string stored and passed once to each of '
-    'the three fan-outs; R8 requests travel through one FIFO queue with a single consumer; R10 the extended-type fetcher follows the same protocol: untimed acquire and published id before each send, an answer is accepted only as MISC_GET_EXTENDED_TYPE reply for the published id, the id is forgotten before the lock is released, one counter step per answer; R11 Caller.call hands the value once to every callable of a snapshot of the list (shared with C07.R2).')
+    'the three fan-outs; R8 requests travel through one FIFO queue with a single consumer; R10 the extended-type fetcher follows the same protocol: untimed acquire and published id before each send, an answer is accepted only as MISC_GET_EXTENDED_TYPE reply for the published id, the id is forgotten before the lock is released, one counter step per answer; R12 the parameter type table (size, floatness, signedness per type code; shared with C03.R6); R13 the extended-type fetcher is built per refresh from the current table; R11 Caller.call hands the value once to every callable of a snapshot of the list (shared with C07.R2).')
 ASSUMPTIONS = ['queue.Queue is FIFO and thread safe', 'the device echoes the variable id in bytes 1..2 of MISC replies']
-FLOORS = {'R9': 5, 'R1': 3, 'R2': 2, 'R3': 6, 'R4': 11, 'R5': 4, 'R6': 16, 'R7': 7, 'R8': 4, 'R10': 14, 'R11': 2}
+FLOORS = {'R9': 5, 'R1': 3, 'R2': 2, 'R3': 6, 'R4': 11, 'R5': 4, 'R6': 16, 'R7': 7, 'R8': 4, 'R10': 14, 'R11': 2, 'R12': 11, 'R13': 1}
 
 
 def check(ctx):
@@ -272,6 +272,23 @@ def check(ctx):
     # ---- R11: the fan-out helper behind the three update-callback lists (shared rule, see C07.R2) --------
     from .c07 import caller_rules
     caller_rules(ctx, 'R11')
+
+    # ---- R12: the type table that gives every parameter its struct format (shared rule, see C03.R6) -----
+    param_type_table_rules(ctx, 'R12')
+
+    # ---- R13: the extended-type fetcher works on the table of the current connection ----------------------
+    fetchers = [(mth, st_) for mth in P.methods.values() for st_ in ast.walk(mth.node)
+                if isinstance(st_, ast.Assign) and isinstance(st_.value, ast.Call) and dotted(st_.value.func) == '_ExtendedTypeFetcher']
+    ctx.need(fetchers, 'no construction of _ExtendedTypeFetcher found')
+    cr_ = P.method('_connection_requested')
+    reset_attrs = {norm(t) for s_ in walk_own(cr_.node) if isinstance(s_, ast.Assign) for t in s_.targets} | \
+        {norm(t) for s_ in walk_own(P.method('_disconnected').node) if isinstance(s_, ast.Assign) for t in s_.targets}
+    for f_, st_ in fetchers:
+        tgt = norm(st_.targets[0])
+        args = [norm(a) for a in st_.value.args]
+        ok = args == ['self.cf', 'self.toc'] and (not tgt.startswith('self.') or tgt in reset_attrs)
+        ctx.inst('R13', f_, 'fetcher-per-connection', ok, 'every connection attempt replaces Param.toc, so a fetcher (which keeps the table it was built with) must be built per refresh '
+                 'from the current self.toc - or dropped when a connection starts/ends; built as %s = _ExtendedTypeFetcher(%s)' % (tgt, ', '.join(args)), line=st_.lineno)
 
     # ---- R10: the extended-type fetcher (same single-outstanding-request protocol) ----------------
     ext_fetcher_rules(ctx, 'R10')
